@@ -61,9 +61,14 @@ func LedgerObs(n *sn.Node, s *SUT) *sn.Obs {
 	return o
 }
 
+// TwinSelect: include SelectUtxos answers in the live-vs-twin vector. Checks that leave
+// temporary selection locks behind on purpose (C12) switch it off: those locks live in
+// memory only and are explicitly allowed to differ.
+var TwinSelect = true
+
 // FullObs = state vector (with SelectUtxos) + ledger vector.
 func FullObs(n *sn.Node, s *SUT) *sn.Obs {
-	o := sn.ObserveOpt(n, sn.ObsOpt{Select: true, Txids: s.knownTxids()})
+	o := sn.ObserveOpt(n, sn.ObsOpt{Select: TwinSelect, Txids: s.knownTxids()})
 	for k, v := range LedgerObs(n, s).M {
 		o.M["L:"+k] = v
 	}
